@@ -29,6 +29,24 @@ Qed.
 Lemma ops_after_le_max_gap : forall tr k, (ops_after k tr <= max_gap tr)%nat.
 Proof. intros. apply after_kth_le_gap. Qed.
 
+(* ---- a run that is not stopped by a check point has executed everything ---- *)
+Lemma no_chk_head_run : forall tr, has_chk tr = false -> head_run tr = ops tr.
+Proof. induction tr as [|e t IH]; simpl; [reflexivity|]. destruct e; [discriminate|]. intros H. now rewrite IH. Qed.
+
+Lemma ops_split : forall tr k, (1 <= k <= ops tr -> ops tr = k + ops (after_kth k tr))%nat.
+Proof.
+  induction tr as [|e t IH]; intros k H; simpl in *; [lia|].
+  destruct e; [apply IH; exact H|].
+  destruct k as [|[|k']]; [lia|lia|]. rewrite (IH (S k')); lia.
+Qed.
+
+Lemma success_is_complete : forall tr k, (1 <= k <= ops tr)%nat ->
+  errors_out k tr = true \/ (k + ops_after k tr = ops tr)%nat.
+Proof.
+  intros tr k H. unfold errors_out, ops_after. destruct (has_chk (after_kth k tr)) eqn:E; [now left|right].
+  rewrite (no_chk_head_run _ E). symmetry. now apply ops_split.
+Qed.
+
 (* ---- composition ---- *)
 
 Lemma gap_opsn : forall n cur X, max_gap_aux cur (opsn n ++ X) = max_gap_aux (cur + n) X.
